@@ -59,7 +59,7 @@ pub fn cases(ctx: &Ctx) -> Vec<Case> {
     let mut rng = Rng::derive(ctx.seed, &[0xC07]);
     let mut v = Vec::new();
     if k.is_prod() {
-        let (n, procs, per) = if ctx.quick() { (250, 8, 10) } else { (4000, 32, 50) };
+        let (n, procs, per) = if ctx.quick() { (600, 16, 12) } else { (6000, 48, 60) };
         for layers in [1u8, 3] {
             for nrecip in [1usize, 3] {
                 v.push(Case::Fresh { n, procs, per_proc: per, layers, nrecip });
@@ -73,8 +73,8 @@ pub fn cases(ctx: &Ctx) -> Vec<Case> {
     }
     // scans: every append size class, flushes in between, both encrypted combos
     let nscan = match (k.is_prod(), ctx.quick()) {
-        (true, true) => 60,
-        (true, false) => 1500,
+        (true, true) => 500,
+        (true, false) => 8000,
         (false, true) => 600,
         (false, false) => 10000,
     };
